@@ -778,7 +778,8 @@ struct Merged {
 static bool read_exact(FILE* f, void* p, size_t n) { return fread(p, 1, n, f) == n; }
 
 // Executes all tasks with forked workers; reports violations; returns per-task outputs.
-static void run_tasks(const Cfg& cfg, const std::vector<Node>& nodes, const std::vector<std::pair<uint32_t, Op>>& tasks, Merged& mg, Stats& st, const std::string& scratch)
+// Returns false if the wall-clock deadline stopped it before all blocks were started (the level is then incomplete).
+static bool run_tasks(const Cfg& cfg, const std::vector<Node>& nodes, const std::vector<std::pair<uint32_t, Op>>& tasks, Merged& mg, Stats& st, const std::string& scratch)
 {
     size_t N = tasks.size();
     mg.outs.assign(N, TaskOut{});
@@ -839,8 +840,10 @@ static void run_tasks(const Cfg& cfg, const std::vector<Node>& nodes, const std:
             }
         }
     };
-    while (next_block < blocks.size() || !running.empty()) {
-        while (running.size() < W && next_block < blocks.size()) {
+    bool cut = false;
+    while ((next_block < blocks.size() && !cut) || !running.empty()) {
+        if (vx::deadline_reached() && next_block < blocks.size()) cut = true;
+        while (!cut && running.size() < W && next_block < blocks.size()) {
             auto [lo, hi] = blocks[next_block];
             std::string path = scratch + "/c25_" + std::to_string(getpid()) + "_" + std::to_string(next_block) + ".bin";
             next_block++;
@@ -865,6 +868,7 @@ static void run_tasks(const Cfg& cfg, const std::vector<Node>& nodes, const std:
             break;
         }
     }
+    return !cut;
 }
 
 static int run_replay()
@@ -920,6 +924,7 @@ int main(int argc, char** argv)
     bool complete = true;
     std::string plan_desc;
     for (auto& pi : plan) {
+        if (vx::deadline_reached()) { complete = false; break; }
         const Cfg& cfg = g_cfgs[pi.cfg];
         std::vector<Node> frontier{Node{}};
         std::set<std::pair<uint64_t, uint64_t>> seen;
@@ -980,7 +985,7 @@ int main(int argc, char** argv)
             }
             Merged mg;
             double t0 = vx::elapsed();
-            run_tasks(cfg, frontier, tasks, mg, total, scratch);
+            if (!run_tasks(cfg, frontier, tasks, mg, total, scratch)) { complete = false; printf("[%s] depth %d cut by deadline\n", cfg.name, d); break; }
             std::vector<Node> next;
             for (size_t t = 0; t < tasks.size(); t++) {
                 if (mg.have[t] != 1) continue;
